@@ -305,6 +305,19 @@ def write_evidence(pid, tier, seed, level, coverage, assumptions, wall, violatio
         json.dump(ev, f, indent=1, default=str)
 
 
+def abbrev(o, max_list=6, depth=0):
+    """evidence samples: long lists are cut to their first elements (the full case is reproducible from the seed)"""
+    if isinstance(o, dict):
+        return {k: abbrev(v, max_list, depth + 1) for k, v in o.items()}
+    if isinstance(o, (list, tuple)):
+        if len(o) > max_list:
+            return [abbrev(v, max_list, depth + 1) for v in o[:max_list]] + ["... (%d more)" % (len(o) - max_list)]
+        return [abbrev(v, max_list, depth + 1) for v in o]
+    if isinstance(o, str) and len(o) > 300:
+        return o[:300] + "..."
+    return o
+
+
 def z(v):
     """Gallina literal for an integer."""
     return "(%d)" % v if v < 0 else "%d" % v
